@@ -141,8 +141,11 @@ def glyph_properties(font):
     bidis = {n: set() for n in order}
     neutral_s, neutral_b = set(), set()
     by_script, by_bidi = {}, {}
+    single = {n: set() for n in order}
     for cp, g in cmap.items():
         sx = {ALIASES.get(s, s) for s in unicodedata.script_extension(chr(cp))}
+        if len(sx) == 1:
+            single[g] |= sx
         for s in sx:
             by_script.setdefault(s, set()).add(g)
         by_primary.setdefault(unicodedata.script(chr(cp)), set()).add(g)
@@ -171,4 +174,5 @@ def glyph_properties(font):
     for b, gl in by_bidi.items():
         for g in close(gl | nb) - nb:
             bidis[g].add(b)
-    return {n: {"scripts": sorted(scripts[n]), "bidi": sorted(bidis[n]), "sc": sorted(primary[n])} for n in order}
+    return {n: {"scripts": sorted(scripts[n]), "bidi": sorted(bidis[n]), "sc": sorted(primary[n]),
+                "single": sorted(single[n])} for n in order}
